@@ -94,8 +94,8 @@ def build_stream(cd, frames, seg_cuts):
     return stream, ends, [len(b) for b in blobs]
 
 
-def oracle_valid(ctx, frames, ends, chunks, events, obs, case, compressed):
-    tag = 'compressed' if compressed else 'plain'
+def oracle_valid(ctx, frames, ends, chunks, events, obs, case, compressed, tag=None):
+    tag = tag or ('compressed' if compressed else 'plain')
     ds = [e for e in events if e[0] == 'D']
     ms = [e for e in events if e[0] == 'M']
     exp = [((f[0], f[1], f[2], f[3], len(f[4])), bytes(f[4])) for f in frames]
@@ -210,6 +210,73 @@ def eval_flip(ctx, frames, compressed, seg_cuts, cuts, bit, cases, meta, model=T
     return ok
 
 
+def eval_handshake(ctx, hs, frames, seg_fracs, cut_fracs, cases, meta, model=True):
+    """the connection derives its segment codec itself: real OPTIONS/SUPPORTED/STARTUP/READY|AUTHENTICATE exchange, then the peer's
+    segments (AUTH_SUCCESS first on an authenticated connection) in the format the protocol prescribes for what STARTUP announced"""
+    import struct
+    pv, auth = hs['pv'], hs['auth']
+    info = {}
+
+    def make(negotiated, auth_rid):
+        fr = [(pv, f[1], f[2], f[3], f[4]) for f in frames]
+        if auth:
+            fr = [(pv, 0, auth_rid, 0x10, struct.pack('>i', -1))] + fr         # AUTH_SUCCESS, null token
+        total = sum(len(F.enc_frame(*f)) for f in fr)
+        if pv >= 5:
+            seg_cuts = None if seg_fracs is None else sorted(set(int(x * total) for x in seg_fracs))
+            stream, ends, seglens = build_stream(F.codec(negotiated), fr, seg_cuts)
+        else:
+            stream = b''.join(F.enc_frame(*f) for f in fr)
+            ends, p = [], 0
+            for f in fr:
+                p += len(F.enc_frame(*f))
+                ends.append(p)
+            seglens = []
+        n = len(stream)
+        cuts = list(range(1, n)) if cut_fracs == 'bytes' else sorted(int(x * n) for x in cut_fracs)
+        info.update(ends=ends, seglens=seglens, n=n)
+        return fr, F.chunk(stream, cuts)
+
+    r = F.run_handshake_segments(pv, auth, hs['compression'], hs['offer_lz4'], make)
+    case = {'handshake': hs, 'frames': [[f[0], f[1], f[2], f[3], bytes(f[4]).hex()] for f in frames], 'seg_fracs': seg_fracs,
+            'cut_fracs': cut_fracs}
+    neg = r['negotiated']
+    tag = '%s%s-%s' % ('v5' if pv >= 5 else 'v%d' % pv, '-auth' if auth else '-ready', 'compressed' if neg else 'plain')
+    ok = True
+    if r['defunct_in_handshake']:
+        d = [e for e in r['events'] if e[0] == 'D']
+        ctx.violation('handshake.%s.defunct-before-switch' % tag, 'handshake (%s) failed before any segment was exchanged: %s' % (tag, d[0][2] if d else '?'),
+                      case=case, expected='framing switch', actual=d[0][2] if d else None, theorem='C06_codec_follows_negotiation')
+        ok = False
+    elif pv >= 5:
+        ok = oracle_valid(ctx, r['frames'], info['ends'], r['chunks'], r['events'], r['obs'], case, neg, tag='handshake-' + tag)
+    ctx.case(case, nontrivial=True, sample={'handshake': tag, 'switch': list(r['after_reply']), 'stream_bytes': info.get('n'),
+                                            'reads': [len(c) for c in r['chunks']][:8], 'delivered': sum(1 for e in r['events'] if e[0] == 'M')})
+    ctx.count('kind', 'handshake-' + tag)
+    if model:
+        b = lambda x: 'true' if x else 'false'
+        z = lambda o: '(%d,%d,%d)' % tuple(o)
+        cases.append('c06_switch_case %s %s %s %s %s' % (b(pv >= 5), b(neg), b(auth), z(r['after_reply']), z(r['after_success'])))
+        meta.append(dict(case, what='framing switch'))
+        if pv >= 5 and info.get('n', 0) <= 400 and not r['defunct_in_handshake']:
+            cases.append(lit_case(neg, r['chunks'], r['events'], r['obs'], r['fin']))
+            meta.append(case)
+    return ok
+
+
+def gen_handshakes(ctx, rng, n, cases, meta):
+    for i in range(n):
+        hs = {'pv': 5 if rng.random() < 0.8 else rng.choice([3, 4]), 'auth': rng.random() < 0.6,
+              'compression': rng.random() < 0.7, 'offer_lz4': rng.random() < 0.8}
+        if i < 8:      # every combination at least once
+            hs = {'pv': 5, 'auth': bool(i & 1), 'compression': bool(i & 2), 'offer_lz4': bool(i & 4)}
+        frames = [gen_v5_frame(rng, maxbody=rng.choice([6, 30])) for _ in range(rng.randint(0, 3))]
+        seg_fracs = None if rng.random() < 0.7 else [rng.random() for _ in range(rng.randint(0, 3))]
+        k = rng.random()
+        cut_fracs = 'bytes' if k < 0.2 else [rng.random() for _ in range(rng.choice([0, 1, 2, 4]))]
+        eval_handshake(ctx, hs, frames, seg_fracs, cut_fracs, cases, meta)
+
+
 def load_corpus():
     d = os.path.join(core.VERIF, 'corpus', 'C06')
     out = []
@@ -275,6 +342,8 @@ def run(ctx):
                 'encoder (one message per self-contained segment, > 128 KiB-1 split into several) and under arbitrary segmentation (several frames per '
                 'segment, frames spanning segments), with and without a (toy) compressor; chunkings: EVERY single split of small streams (exhaustive), '
                 'one byte at a time, random k-splits; corruption: EVERY single-bit flip of small streams (exhaustive) under whole/split/1-byte reads. '
+                'handshake cases: the connection is put into checksumming mode by the REAL handshake handlers (READY or AUTHENTICATE + AUTH_SUCCESS, all 8 '
+                'combinations of auth x compression requested x lz4 offered, also v3/v4) and then reads the format the peer uses. '
                 'non-trivial = distinct (frames, segmentation, chunking, flip) with >= 1 frame and >= 1 split or a flip')
     # 0. corpus first (pre-fix failing cases)
     for c in load_corpus():
@@ -341,6 +410,8 @@ def run(ctx):
         stream, _, _ = build_stream(F.codec(compressed), frames, None)
         n = len(stream)
         eval_flip(ctx, frames, compressed, None, F.splits_k(rng, n, rng.choice([0, 1, 3])), rng.randrange(8 * n), cases, meta)
+    # 6. the connection chooses its own segment codec: real handshake (READY / AUTHENTICATE+AUTH_SUCCESS) x compression negotiated or not
+    gen_handshakes(ctx, rng, 24 if quick else 300, cases, meta)
     # ---- model vs implementation
     if os.path.exists(os.path.join(core.COQ, 'Model', 'SegmentToy.vo')):
         try:
@@ -369,7 +440,9 @@ def replay(ctx, rp):
         print('nothing to replay: %s' % rp.get('theorem'))
         return 1
     fr = frames_from_json(case)
-    if case.get('flip') is None:
+    if case.get('handshake'):
+        ok = eval_handshake(ctx, case['handshake'], fr, case['seg_fracs'], case['cut_fracs'], [], [], model=False)
+    elif case.get('flip') is None:
         ok = eval_valid(ctx, fr, case['compressed'], case['seg_cuts'], case['cuts'], [], [], model=False)
     else:
         ok = eval_flip(ctx, fr, case['compressed'], case['seg_cuts'], case['cuts'], case['flip'], [], [], model=False)
